@@ -485,6 +485,15 @@ int main(int argc, char **argv)
 				cx.mode = 1; (g_cx = &cx, jwt_checker_setcb(chk, the_cb, (idx & 1) ? &cx : NULL)); eff_alg = cfg; eff_key = item != NULL;
 				break;
 			}
+			case 11: {	/* the same preset, then the callback replaces the key ONLY: the preset key's alg attribute does not travel with it */
+				const jwk_item_t *o;
+				if (other_ki < 0) vh_harness_fail("route 11 needs oct:64 in the zoo");
+				o = get_item(prov, other_ki, JWT_ALG_HS512, 0);
+				if (do_setkey(chk, 0, JWT_ALG_NONE, o)) vh_harness_fail("route 11 preset refused");
+				log_setkey(0, idx, prov, route, JWT_ALG_NONE, other_ki, JWT_ALG_HS512, 0, 0, chk);
+				cx.mode = 2; (g_cx = &cx, jwt_checker_setcb(chk, the_cb, (idx & 1) ? &cx : NULL)); eff_alg = JWT_ALG_NONE; eff_key = item != NULL;
+				break;
+			}
 			}
 			/* a quarter of the callback cells: the documented context-only update (NULL callback, a context) after the registration; the
 			 * callback stays registered */
